@@ -2,6 +2,6 @@
 
 
 def ntag_protect_then_auth(tag, password, password2, read_protect, protect_from):
-    first = tag._protect_with_password(password, read_protect, protect_from)
+    first = tag.protect(password, read_protect, protect_from)     # the public entry point (nfc.tag.Tag.protect)
     second = tag._authenticate(password2)
     return (first, second)
